@@ -485,6 +485,15 @@ class Host(HostBase):
                 if not ys:
                     raise self.raise_("IndexError", "list index out of range", node)
                 raise self.unsupported(node, f"subscript of {v!r}")
+            if isinstance(idx, Const) and isinstance(idx.value, int) and not isinstance(idx.value, bool):
+                # a constant position: in range iff the list is long enough, which an earlier emptiness / length test
+                # on the same list may already have settled (its length is one variable of the octagon)
+                ln = self.length(v, node)
+                need = idx.value + 1 if idx.value >= 0 else -idx.value
+                if isinstance(ln, IntV):
+                    if not self.ctx.decide_le0(Lin.k(need) - ln.lin):
+                        raise self.raise_("IndexError", "list index out of range", node)
+                    return ys[0].value
             if self.ctx.choose(("stream-item", v.id, self.key_desc(idx)), ["item", "IndexError"]) != "item":
                 raise self.raise_("IndexError", "list index out of range", node)
             return ys[0].value
